@@ -4,6 +4,7 @@ import (
 	"bytes"
 	"context"
 	stdjson "encoding/json"
+	"fmt"
 	"math/rand"
 	"reflect"
 	"sort"
@@ -14,6 +15,7 @@ import (
 	"verif/harness/gen"
 	"verif/harness/oracle"
 	"verif/harness/rt"
+	"verif/harness/zoo"
 )
 
 // C13 — all encoder variants and options describe the same document (go-json against itself).
@@ -208,7 +210,9 @@ func c13Relations() []c13Rel {
 			got, err := gojson.MarshalWithOption(x, gojson.DisableHTMLEscape())
 			if err == nil {
 				// only the spelling of < > & may differ
-				r := strings.NewReplacer("<", "\\u003c", ">", "\\u003e", "&", "\\u0026")
+				// (in bytes copied from RawMessage / marshaler output the two line separators are
+				// escaped together with them, as in encoding/json)
+				r := strings.NewReplacer("<", "\\u003c", ">", "\\u003e", "&", "\\u0026", string(rune(0x2028)), "\\u2028", string(rune(0x2029)), "\\u2029")
 				got = []byte(r.Replace(string(got)))
 			}
 			return got, plain, err, false
@@ -355,6 +359,36 @@ func init() {
 		Run: func(c *rt.Ctx) {
 			rels := c13Relations()
 			rv := c.RNG(0)
+			if c.Idx%32 == 7 {
+				// marshaler output and raw messages with the characters the options treat specially
+				// (< > & U+2028 U+2029, escapes, white space) in member names as well as in values, in
+				// every position a value can take, plus the fixed families of C01
+				const bs = "\\"
+				ls := bs + "u2028"
+				raws := []string{`{"a<b":1,"x&y":{"<":"v<>&"},"k>":[{"&&":"<"}]}`, `{"` + ls + `":"` + ls + bs + `u2029","t` + bs + `t":1}`, "{ \"sp ace\" : [ 1 , { \"<\" : null } ] }",
+					`["<",{"&":">"}]`, `"<&>"`, `{"` + bs + `u003c":"` + bs + `u003e"}`, "{\"\u2028\":\"\u2029<\"}"}
+				var vals []any
+				for _, raw := range raws {
+					rm := stdjson.RawMessage(raw)
+					mr := zoo.MRaw{B: []byte(raw)}
+					vals = append(vals, rm, mr, &mr, struct {
+						A int
+						R stdjson.RawMessage
+						M zoo.MRaw
+						Z string
+					}{1, rm, mr, "<z>"}, []any{rm, mr}, map[string]any{"<k>": mr, "r": rm}, []zoo.MRaw{mr, mr}, map[string]stdjson.RawMessage{"&": rm})
+				}
+				vals = append(vals, c01KeyKindMaps()...)
+				vals = append(vals, c01ElemKindContainers()...)
+				for i, x := range vals {
+					v := reflect.ValueOf(x)
+					if !c.Cur(9000+i, fmt.Sprintf("shapes=core\nfixed value %d: %T", i, x)) {
+						continue
+					}
+					c13Case(c, 9000+i, rels, v, v.Type(), "")
+					c.NonTrivial("fixed", fmt.Sprintf("%T", x), fmt.Sprint(i))
+				}
+			}
 			for k := 0; k < 32; k++ {
 				o := gen.TypeOpts{FeatureProb: 25}
 				var t reflect.Type
